@@ -55,6 +55,10 @@ CHECKS = {
             "models fitted on TLC-enumerated datasets (Threshold.tla Valid states; Moments.tla payoff-table states) are queried: pmf validity, dependence on (score, group) only, monotonicity without flip, EG pmf == mixture of predictors_ by id, support/determinism over seeds; frequency clause by a fixed-seed 6-sigma test",
             "TLA+ states validity / functional dependence / id-alignment / support and determinism; every fitted ThresholdOptimizer (seeded configurations per Valid dataset) and every EG model of the C08 run is checked on scrambled query sets with duplicates; regression (BoundedGroupLoss, runs without the LP step whose weights_ index is not in id order) draws are matched to the predictors' own weights by output value",
             "frequencies: 3000 replicated rows per query point, 6 sigma, fixed seeds (statistical clause outside TLC); label = [p >= U] is refinement tier only", "5/C10"),
+    "C13": (["Merge.tla"],
+            "TLC checks Unmerge(Merge(t)) = t and injectivity for every tuple over an alphabet containing the separator and the escape character, and finds colliding twins under the wrong merges; _merge_columns replayed on every tuple; twin tables pushed through moments, MetricFrame, EG, GridSearch, ThresholdOptimizer",
+            "property tier: _merge_columns is collision-free on every enumerated tuple and the partition it induces equals the tuple partition (= MetricFrame's non-empty intersectional groups); moments / EG / GridSearch / ThresholdOptimizer (fit and predict-time lookup on permuted subsets) behave exactly as with canonical group ids. Refinement tier: exact merged string == Merge.tla",
+            "strings up to length 2 (2 columns) / 1 (3 columns) in quick, longer in thorough; values compared as strings", "5/C13"),
 }
 
 PENDING_REASON = "check under construction in this session (DESIGN.md section 5 describes the planned TLA+ spec and binding); not yet claimed"
